@@ -1,7 +1,10 @@
 mod c09sem;
+mod c01;
 mod c02mut;
+mod mini;
 mod c06;
 mod c07;
+mod c08;
 mod c10;
 mod c11;
 mod cexec;
@@ -22,7 +25,7 @@ mod text;
 use crate::core::{CheckDef, Tier};
 
 fn defs() -> Vec<&'static CheckDef> {
-    vec![&cexec::C02, &cexec::C04, &cexec::C05, &c06::C06, &c07::C07, &c10::C09, &c10::C10, &c11::C11, &c14::C14, &c15::C15, &c16::C16, &cexec::C17, &c18::C18, &c19::C19, &c20::C20]
+    vec![&c01::C01, &cexec::C02, &cexec::C04, &cexec::C05, &c06::C06, &c07::C07, &c08::C08, &c10::C09, &c10::C10, &c11::C11, &c14::C14, &c15::C15, &c16::C16, &cexec::C17, &c18::C18, &c19::C19, &c20::C20]
 }
 
 fn main() {
